@@ -90,7 +90,10 @@ unmangle!(
     ) -> i32 {
         let next_pos = out_buf_next as usize - out_buf_start as usize;
         let out_size = *out_buf_size + next_pos;
-        let r_ref = r.as_mut().expect("bad decompressor pointer");
+        let r_ref = match r.as_mut() {
+            Some(r_ref) => r_ref,
+            None => return TINFLStatus::BadParam as i32,
+        };
         if let Some(decompressor) = r_ref.inner.as_mut() {
             let (status, in_consumed, out_consumed) = decompress(
                 decompressor.as_mut(),
